@@ -496,6 +496,7 @@ def write_gen_workspace(U, cases, gdir, shards=GEN_SHARDS):
     let mut arena = Arena::new(1 << 20);
     println!("base {:x}", arena.base());
     println!("flags {}", flags_obs());
+    println!("hashfam {}", hash_family_obs());
     let mut out = String::new();
     for line in text.lines() {
         let mut it = line.split(' ');
@@ -587,6 +588,8 @@ def run_impl(parts, ops_of, gdir, tdir, tag, binprefix="evc_s", bindir="debug"):
             for line in out.splitlines():
                 if line.startswith("flags "):
                     obs[("_", "flags")] = line.split(" ", 1)[1]
+                if line.startswith("hashfam "):
+                    obs[("_", "hashfam")] = line.split(" ", 1)[1]
                 if line.startswith("base "):
                     base = int(line.split()[1], 16)
                 elif line.endswith(" done") and line.count(" ") == 1:
